@@ -384,6 +384,110 @@ def check_views(c: Circuit):
     return bad
 
 
+# ---- C05: the views derived by the Coq model (coq/circuit/CViews.v) vs the implementation's -------
+VIEW_NAMES = ['_front/first_on', '_rear/last_on', 'front', 'rear', '_dag', 'next', 'prev', 'num_operations',
+              '_gate_info/gate_counts', '_graph_info', 'active_qudits', 'depth', 'dag_iteration']
+
+
+def parse_v(s: str):
+    """parse the driver's value syntax: integers, atoms, [ ... ] lists"""
+    toks = s.replace('[', ' [ ').replace(']', ' ] ').split()
+    pos = 0
+
+    def item():
+        nonlocal pos
+        t = toks[pos]
+        pos += 1
+        if t == '[':
+            out = []
+            while toks[pos] != ']':
+                out.append(item())
+            pos += 1
+            return out
+        try:
+            return int(t)
+        except ValueError:
+            return t
+    out = []
+    while pos < len(toks):
+        out.append(item())
+    return out
+
+
+def tolist(x):
+    return [tolist(y) for y in x] if isinstance(x, (list, tuple)) else x
+
+
+def strip_ps(cycles):
+    """inner cycles of a CircuitGate without parameters (CircuitGate equality ignores them)"""
+    return [[[o[0], o[1], list(o[2]), [], list(o[4]), strip_ps(o[5])] for o in cy] for cy in cycles]
+
+
+def canon_gate_counts(pairs):
+    """[(gate key op, count)] -> merged by parameter-erased key, sorted"""
+    acc = {}
+    for k, n in pairs:
+        key = repr([k[0], k[1], [], [], list(k[4]), strip_ps(tolist(k[5]))])
+        acc[key] = acc.get(key, 0) + n
+    return sorted([k, n] for k, n in acc.items())
+
+
+def impl_views(c: Circuit):
+    """The implementation's incrementally maintained views, in the layout of the driver's `views` answer."""
+    n = c.num_qudits
+    P = lambda p: [] if p is None else [p[0], p[1]]
+    its = list(c.operations_with_cycles())
+    pts = sorted(c._dag.keys())
+    qmap = lambda d: [[q, P(d[q])] for q in sorted(d)]
+    gates = []
+    for g, k in c._gate_info.items():
+        if isinstance(g, CircuitGate):
+            gates.append(((1, 0, (), (), tuple(g.radixes), tolist(snap_cycles(g._circuit))), k))
+        else:
+            gates.append(((0, GID.get(g, 99), (), (), tuple(g.radixes), ()), k))
+    gc2 = []
+    for g, k in c.gate_counts.items():
+        if isinstance(g, CircuitGate):
+            gc2.append(((1, 0, (), (), tuple(g.radixes), tolist(snap_cycles(g._circuit))), k))
+        else:
+            gc2.append(((0, GID.get(g, 99), (), (), tuple(g.radixes), ()), k))
+    gi = canon_gate_counts(gates)
+    if canon_gate_counts(gc2) != gi:
+        gi = ['gate_counts property differs from _gate_info', gi, canon_gate_counts(gc2)]
+    first = [P(c._front[q]) for q in range(n)]
+    if first != [P(c.first_on(q)) for q in range(n)]:
+        first = ['first_on differs from _front', first]
+    last = [P(c._rear[q]) for q in range(n)]
+    if last != [P(c.last_on(q)) for q in range(n)]:
+        last = ['last_on differs from _rear', last]
+    return [
+        first, last,
+        [P(p) for p in sorted(c.front)],
+        [P(p) for p in sorted(c.rear)],
+        [[P(p), qmap(c._dag[p][0]), qmap(c._dag[p][1])] for p in pts],
+        [[P(p), [P(x) for x in sorted(c.next(p))]] for p in pts],
+        [[P(p), [P(x) for x in sorted(c.prev(p))]] for p in pts],
+        c.num_operations,
+        gi,
+        sorted([[a, b], k] for (a, b), k in c._graph_info.items()),
+        list(c.active_qudits),
+        int(c.depth) if n > 0 else 0,
+        [[cy, tolist(snap_op(op))] for cy, op in its],
+    ]
+
+
+def model_views(line: str):
+    v = parse_v(line)[0]
+    v[8] = canon_gate_counts([(k, n) for k, n in v[8]])
+    v[9] = sorted(v[9])
+    return v
+
+
+def diff_views(model, impl):
+    """names of the views on which the Coq-derived value and the implementation's differ"""
+    return [VIEW_NAMES[i] for i in range(len(VIEW_NAMES)) if tolist(model[i]) != tolist(impl[i])]
+
+
 # ---- random calls ------------------------------------------------------------------------
 def rand_params(rng, k):
     return tuple(rng.randint(1, 99) for _ in range(k))
